@@ -45,6 +45,13 @@ def snapshot_ops(w, bets, ld):
     return ops
 
 
+def seen_orders(w, b):
+    seen = w.__dict__.setdefault("_seen_in_blotter", {})
+    for o in b:
+        seen[id(o)] = o
+    return list(seen.values())
+
+
 def check_blotter(w, res, payload, where):
     """C15 in live mode: the live list holds exactly the orders that are not complete; nothing twice"""
     b = w.market.blotter
@@ -63,6 +70,29 @@ def check_blotter(w, res, payload, where):
     for o in live:
         if o.id not in b:
             res.violate("live-list-holds-unknown-order", "%s: the live list holds an order the blotter does not know" % where, payload)
+    # C19 in live mode: an exchange update is never attributed to another order - the snapshot an order holds is one of ITS bet
+    for o in seen_orders(w, b):
+        co = o.responses.current_order
+        if co is not None and o.bet_id is not None and getattr(co, "bet_id", None) is not None and str(co.bet_id) != str(o.bet_id):
+            res.violate("update-misattributed", "%s: order %s (bet %s) holds the order-stream snapshot of bet %s (matched %s)" % (
+                where, getattr(o, "_mid", o.id), o.bet_id, co.bet_id, getattr(co, "size_matched", "?")), payload)
+    # exactly once, for good: an order that has been in the blotter stays there as the very same object (nothing overwrites its id
+    # entry), no two objects of the blotter share an order id, and the views hold nothing but orders of the blotter
+    seen = w.__dict__.setdefault("_seen_in_blotter", {})
+    for o in b:
+        seen[id(o)] = o
+    for o in seen.values():
+        if o.id not in b or b[o.id] is not o:
+            res.violate("lookup:id", "%s: order %s was in the blotter and its id now resolves to %s" % (
+                where, getattr(o, "_mid", o.id), "nothing" if o.id not in b else "another object"), payload)
+    for st in w.strategies:
+        view = list(b.strategy_orders(st))
+        for o in view:
+            if o.id not in b or b[o.id] is not o:
+                res.violate("lookup:id", "%s: the strategy view holds an order (%s, bet %s) that is not the blotter's entry for its id" % (
+                    where, getattr(o, "_mid", o.id), o.bet_id), payload)
+        if len({id(o) for o in view}) != len(view):
+            res.violate("duplicate-in-live-list", "%s: an order twice in the strategy view" % where, payload)
     # C03 in live mode: at most one operation per order is outstanding (synchronous placement: nothing but the place response
     # acknowledges the bet, so no request can be accepted before it)
     import collections
